@@ -75,20 +75,36 @@ def run_skrifa(chk, facts, cfg):
     chk.rule("C02-c", "T-WHO/T-GUARD: program counter writers; budget checks dominate backward jumps / loop calls / calls; "
                       "dispatch loop bounded by MAX_RUN_INSTRUCTIONS")
     pcw = field_writers(facts, (SK, "read_fonts"), DECODER, "pc")
-    allowed_pc = {"do_jump", "leave", "decode_inner", "decode", "new"}
+    # a writer of the program counter is recognised by what it does, not by its name: the decoder's own module (forward
+    # decoding, constructor), the jump routine (the function that charges LoopBudget::doing_backward_jump -- checked in
+    # detail below) or the return path (the function that pops the call stack)
+    def pc_writer_kind(b):
+        if "/tables/glyf/bytecode/" in b.file and b.crate == "read_fonts":
+            return "decoder module"
+        cs = [t.callee for _, t in b.calls()]
+        if any(c.endswith("LoopBudget::doing_backward_jump") for c in cs):
+            return "jump routine (charges the loop budget)"
+        if any(c.endswith("call_stack::CallStack::pop") for c in cs):
+            return "return path (pops the call stack)"
+        return None
     for b, bb, st in pcw:
         nm = b.path.split("::")[-1]
-        chk.ob("C02-c", f"Decoder.pc written in {nm} ({os.path.basename(b.file)}:{st[3][0]})", nm in allowed_pc, key=f"pc-writer|{b.path}",
+        kind = pc_writer_kind(b)
+        chk.ob("C02-c", f"Decoder.pc written in {nm} ({os.path.basename(b.file)}:{st[3][0]})", kind is not None, why=kind, key=f"pc-writer|{b.path}",
                file=b.file, line=st[3][0], fn=b.path,
                detail="a new writer of the program counter can move execution backwards without charging the loop budget")
     chk.floor("C02-c", "writers of Decoder.pc", len(pcw), 4)
     dw = field_writers(facts, (SK,), PSTATE, "decoder")
     for b, bb, st in dw:
         nm = b.path.split("::")[-1]
-        chk.ob("C02-c", f"ProgramState.decoder replaced in {nm}", nm in {"new", "reset", "enter"}, key=f"decoder-writer|{b.path}",
-               file=b.file, line=st[3][0], fn=b.path)
-    # do_jump: on the negative side the pc write is preceded by doing_backward_jump()?, and -1 is rejected
-    dj = chk.anchor("C02-c", "Engine::do_jump", facts.one_body(r"engine::Engine<'_>>::do_jump$", SK))
+        e = expr_of(b, st[2][1]) if st[2][0] == "use" else ("?",)
+        fresh = e[0] == "call" and e[1].endswith("bytecode::decode::Decoder::<'a>::new")
+        chk.ob("C02-c", f"ProgramState.decoder replaced in {nm} by {show(b, e)[:40]}", fresh, key=f"decoder-writer|{b.path}",
+               file=b.file, line=st[3][0], fn=b.path,
+               detail="the decoder (and with it the program counter) may only be replaced by a fresh Decoder::new(..)")
+    # the jump routine: on the negative side the pc write is preceded by doing_backward_jump()?, and -1 is rejected
+    jumpers = [b for b in {b.path: b for b, _, _ in pcw}.values() if any(t.callee.endswith("LoopBudget::doing_backward_jump") for _, t in b.calls())]
+    dj = chk.anchor("C02-c", "the jump routine (writes Decoder.pc and charges doing_backward_jump)", jumpers[0] if len(jumpers) == 1 else None)
     store = [bb for b, bb, st in pcw if b.path == dj.path]
     bj = [bb for bb, t in dj.calls() if t.callee.endswith("LoopBudget::doing_backward_jump")]
     ok = False
